@@ -693,10 +693,51 @@ def scan_call_sites(src):
     return sites
 
 
+def scan_prefix_guard(src):
+    """as_code's rename guard: the `while <test>: v = "_" + v` loop.  Source form of <test>: does it range over ALL of
+    self.inputs, and does it test the prefix against the name itself (name.startswith(v))?  Also the initial prefix."""
+    import ast
+    tree = ast.parse(src)
+    fn = None
+    for node in ast.walk(tree):
+        if isinstance(node, ast.FunctionDef) and node.name == "as_code":
+            fn = node
+    prefix, test = "v", None
+    for node in ast.walk(fn):
+        if isinstance(node, ast.While):
+            for b in node.body:
+                if (isinstance(b, ast.Assign) and isinstance(b.targets[0], ast.Name) and isinstance(b.value, ast.BinOp)
+                        and isinstance(b.value.right, ast.Name) and b.value.right.id == b.targets[0].id):
+                    test = node.test
+                    var = b.targets[0].id
+                    for a in ast.walk(fn):
+                        if (isinstance(a, ast.Assign) and isinstance(a.targets[0], ast.Name) and a.targets[0].id == var
+                                and isinstance(a.value, ast.Constant) and isinstance(a.value.value, str)):
+                            prefix = a.value.value
+    if test is None:
+        return {"found": False, "all_inputs": False, "startswith": False, "source": "", "prefix": prefix}
+    all_inputs = startswith = False
+    if (isinstance(test, ast.Call) and isinstance(test.func, ast.Name) and test.func.id == "any" and test.args
+            and isinstance(test.args[0], ast.GeneratorExp) and len(test.args[0].generators) == 1):
+        gen = test.args[0].generators[0]
+        it = gen.iter
+        all_inputs = (isinstance(it, ast.Attribute) and it.attr == "inputs" and isinstance(it.value, ast.Name)
+                      and it.value.id == "self" and not gen.ifs and isinstance(gen.target, ast.Name))
+        e = test.args[0].elt
+        startswith = (isinstance(e, ast.Call) and isinstance(e.func, ast.Attribute) and e.func.attr == "startswith"
+                      and isinstance(e.func.value, ast.Name) and isinstance(gen.target, ast.Name)
+                      and e.func.value.id == gen.target.id and len(e.args) == 1 and isinstance(e.args[0], ast.Name)
+                      and e.args[0].id == var)
+    return {"found": True, "all_inputs": bool(all_inputs), "startswith": bool(startswith), "source": ast.unparse(test),
+            "prefix": prefix}
+
+
 def extract(ctx):
     from ..common import REPO, LEAN
     src = (REPO / "funsor" / "ops" / "program.py").read_text()
     sites = scan_call_sites(src)
+    guard = scan_prefix_guard(src)
+    ctx.extra["prefix_guard"] = guard
     q = lambda t: t.replace("\\", "\\\\").replace('"', '\\"')
     body = ",\n".join(f'  ⟨{ln}, "{q(kind)}", "{q(tgt)}", {"true" if touches else "false"}⟩' for ln, kind, tgt, touches in sites)
     text = ("/-\n  Gen/C18CallSites.lean — GENERATED by fv/harness/c18.py (extract) from funsor/ops/program.py on every run of\n"
@@ -704,7 +745,13 @@ def extract(ctx):
             "  calls a mutating method on an object; `touchesSelf` = the object is `self`, reached through `self`, or a local\n"
             "  alias of such an object (a Call like `list(self.constants)` makes a fresh object).\n-/\n"
             "namespace FV.Gen.C18\n\nstructure CallSite where\n  line : Nat\n  kind : String\n  target : String\n"
-            "  touchesSelf : Bool\n  deriving Repr, DecidableEq\n\ndef callSites : List CallSite := [\n" + body + "\n]\n\nend FV.Gen.C18\n")
+            "  touchesSelf : Bool\n  deriving Repr, DecidableEq\n\ndef callSites : List CallSite := [\n" + body + "\n]\n\n"
+            "/-- Source form of as_code's rename guard `while <test>: v = \"_\" + v`. -/\n"
+            "structure PrefixGuard where\n  found : Bool\n  rangesOverAllInputs : Bool\n  testsNameStartswithPrefix : Bool\n"
+            "  initialPrefix : String\n  source : String\n  deriving Repr, DecidableEq\n\n"
+            "def prefixGuard : PrefixGuard :=\n  ⟨" + ("true" if guard["found"] else "false") + ", "
+            + ("true" if guard["all_inputs"] else "false") + ", " + ("true" if guard["startswith"] else "false")
+            + ', "' + q(guard["prefix"]) + '", "' + q(guard["source"]) + '"⟩\n\nend FV.Gen.C18\n')
     f = LEAN / "FunsorVerif" / "Gen" / "C18CallSites.lean"
     if not f.exists() or f.read_text() != text:
         f.write_text(text)
@@ -1627,6 +1674,48 @@ def cmp_stream(ctx, use_driver=True):
         if any(f.witness is not None for f in ctx.failures) or ctx.infra_errors:
             return
 
+
+# ---------------------------------------------------------------------------------------------
+# input names that look like as_code()'s temporaries, in EVERY input position, with 0-2 constants
+# ---------------------------------------------------------------------------------------------
+
+def names_specs():
+    from ..common import REPO
+    prefix = scan_prefix_guard((REPO / "funsor" / "ops" / "program.py").read_text())["prefix"]
+    pool = [f"{prefix}{i}" for i in range(7)] + [prefix, prefix + "10", prefix + prefix + "1", "_" + prefix + "0", "_" + prefix + "1",
+                                                  "__" + prefix + "2", "_" + prefix]
+    out = []
+    plain = ["s", "t", "u"]
+    vals = [3.0, -0.5, 2.0]
+    for nconst in (0, 1, 2):
+        for nin in (2, 3):
+            for pos in range(nin):
+                for nm in pool:
+                    names = plain[:nin]
+                    names[pos] = nm
+                    nodes = [["var", n_, "real", 0] for n_ in names]
+                    nodes += [["num", [1.5, -2.0][k]] for k in range(nconst)]
+                    # reads the inputs in order, non-commutatively: ((in0 - in1) [/ c0] - in2 [* c1])
+                    nodes.append(["bin", "sub", 0, 1]); r = len(nodes) - 1
+                    if nconst >= 1:
+                        nodes.append(["bin", "truediv", r, nin]); r = len(nodes) - 1
+                    if nin == 3:
+                        nodes.append(["bin", "sub", r, 2]); r = len(nodes) - 1
+                    if nconst == 2:
+                        nodes.append(["bin", "mul", r, nin + 1]); r = len(nodes) - 1
+                    nodes.append(["tuple", [r, pos]])
+                    out.append(({"nodes": nodes, "root": len(nodes) - 1, "interp": "reflect", "n": 0},
+                                {n_: vals[k] for k, n_ in enumerate(names)}))
+    return out
+
+
+def names_stream(ctx, use_driver=True):
+    for spec, data in names_specs():
+        check_case(ctx, spec, data, use_driver=use_driver, stream="names")
+        ctx.count("names-stream:case")
+        if any(f.witness is not None for f in ctx.failures) or ctx.infra_errors:
+            return
+
 # ---------------------------------------------------------------------------------------------
 # tracer
 # ---------------------------------------------------------------------------------------------
@@ -2290,6 +2379,8 @@ def correspond(ctx):
         if ctx.failures or ctx.infra_errors:
             break
     if not (ctx.failures or ctx.infra_errors):
+        names_stream(ctx)
+    if not (ctx.failures or ctx.infra_errors):
         cmp_stream(ctx)
     if not (ctx.failures or ctx.infra_errors):
         index_stream(ctx)
@@ -2342,6 +2433,9 @@ def search(ctx, broken):
         check_trace(ctx, gen_trace_spec(rng, "thorough"), use_driver=False)
         if have():
             return
+    names_stream(ctx, use_driver=False)
+    if have():
+        return
     cmp_stream(ctx, use_driver=False)
     if have():
         return
